@@ -694,6 +694,7 @@ func TestVerifC15C16C19(t *testing.T) {
 	var wg sync.WaitGroup
 	var tmu sync.Mutex
 	traces := map[string][]map[string]any{} // budget constants -> concatenated runs
+	bySig := map[string][]verifkit.Mismatch{}
 	next := make(chan int)
 	for w := 0; w < workers; w++ {
 		wg.Add(1)
@@ -708,7 +709,14 @@ func TestVerifC15C16C19(t *testing.T) {
 					continue
 				}
 				if o.mismatch != nil {
-					res.Mismatch(*o.mismatch)
+					// at most 2 witnesses per signature, so that many instances of one class (the
+					// known ResetFlood finding) cannot crowd out another class
+					tmu.Lock()
+					if len(bySig[o.mismatch.Sig]) < 2 {
+						bySig[o.mismatch.Sig] = append(bySig[o.mismatch.Sig], *o.mismatch)
+					}
+					tmu.Unlock()
+					res.Count("mismatching", 1)
 					res.Count("sig:"+o.mismatch.Sig, 1)
 					continue
 				}
@@ -736,6 +744,11 @@ func TestVerifC15C16C19(t *testing.T) {
 	}
 	close(next)
 	wg.Wait()
+	for _, sig := range verifkit.SortedKeys(bySig) {
+		for _, m := range bySig[sig] {
+			res.Mismatch(m)
+		}
+	}
 	groups := map[string]string{}
 	for _, key := range verifkit.SortedKeys(traces) {
 		p := filepath.Join(verifkit.TmpDir(t, "mdtrace"), "trace_"+key+".ndjson")
